@@ -497,20 +497,22 @@ def stock_oracle(case) -> core.CaseResult:
     G["pm"] = 1.0 / dxa
     G["pn"] = 1.0 / dxa
     glev = rng.uniform(0.4, 1.0, NL) if case.get("shear") else np.ones(NL)
-    # analytic field (m/s), linear in x, y, t; |u|, |v| * dt / min dx <= disp
+    # analytic field (m/s): linear in x and y, times a factor that is piecewise linear in time with its kinks at
+    # the frames (so the file's linear interpolation between frames reproduces it exactly, while the increment
+    # per step differs from one frame interval to the next); |u|, |v| * dt / min dx <= disp
     a = rng.uniform(-1, 1, (2, 4))
-    if case["steady"]:
-        a[:, 3] = 0
     L = float(max(jm, im))
     cum = np.concatenate([[0], np.cumsum([gap] + list(case.get("more", [])))]).astype(int)  # frame steps
     begin = min(int(case.get("begin", 0)), int(cum[-1]) - 1 - s0) if case.get("more") is not None else 0
     begin = max(begin, 0)
     Tspan = int(cum[-1]) * dt
-    amp = case["disp"] * float(dxa.min()) / dt / 4.0
+    tf = np.ones(len(cum)) if case["steady"] else rng.uniform(0.5, 1.5, len(cum))
+    amp = case["disp"] * float(dxa.min()) / dt / 4.5
 
     def f(x, y, t):
-        return (amp * (a[0, 0] + a[0, 1] * x / L + a[0, 2] * y / L + a[0, 3] * t / Tspan),
-                amp * (a[1, 0] + a[1, 1] * x / L + a[1, 2] * y / L + a[1, 3] * t / Tspan))
+        tl = np.interp(t, cum * float(dt), tf)
+        return (amp * (a[0, 0] + a[0, 1] * x / L + a[0, 2] * y / L) * tl,
+                amp * (a[1, 0] + a[1, 1] * x / L + a[1, 2] * y / L) * tl)
 
     sgn = -1 if case["reverse"] else 1
     T = scen.T0 + scen.S(86400)
